@@ -175,6 +175,11 @@ func runC13(env *core.Env) {
 		add(fmt.Sprintf("reader||%s/list--all/S_A-torn-tail", alpha[wi].Name), torn, bound, core.R("", "--json", "list", "--all"), alpha[wi].Mk(f, 1))
 		add(fmt.Sprintf("reader||%s/show-T1/S_A-torn-tail", alpha[wi].Name), torn, bound, core.R("", "--json", "show", f.T1), alpha[wi].Mk(f, 1))
 	}
+	// a store still under the legacy file name: the reader resolves the name, then opens it - against the two rewriters
+	leg := legacyNamed(f.SA)
+	add("reader||compact/list--all/S_A-legacy-file", leg, bound, core.R("", "--json", "list", "--all"), alpha[14].Mk(f, 1))
+	add("reader||plan/list--all/S_A-legacy-file", leg, bound, core.R("", "--json", "list", "--all"), alpha[12].Mk(f, 1))
+	add("reader||compact/show-T1/S_A-legacy-file", leg, bound, core.R("", "--json", "show", f.T1), alpha[14].Mk(f, 1))
 	add("reader||new-task||claim/list--all/S_A", f.SA, 2, core.R("", "--json", "list", "--all"), alpha[0].Mk(f, 1), claimReq("a2"))
 	add("reader||compact||new-task/list--all/S_A", f.SA, 2, core.R("", "--json", "list", "--all"), alpha[14].Mk(f, 1), alpha[0].Mk(f, 2))
 	// weaker assumption about the kernel, checked without a scheduler: if a writer's single write(2) became visible to a
@@ -184,7 +189,7 @@ func runC13(env *core.Env) {
 	// scheduled part; here only "readers never fail" is asserted.)
 	st.PerScenario["partial-visibility-phase"] = c13PartialVisibility(env, f, alpha)
 	exploreMany(env, st, "C13", jobs, 4)
-	finishSched(env, st, "a lock-free reader (list --json --all, show --json; the text views list --epic, list --all, show <epic> against 6 writers that change what they show; thorough: also --epics/--ready) against every writer of the C02 alphabet plus a >4 KiB multi-event append and single appends of 100 KB (larger than the scan buffer), on a small and a 140 KB store (multi-read scans), plus reader against two writers; every interleaving of the reader's steps (path stat, open, tail probe, each read chunk) with the writer's steps up to the preemption bound; oracle: the reader exits 0 and its output equals the same command's output on one of the store versions that existed between its invocation and its exit (snapshots after every scheduler step)")
+	finishSched(env, st, "a lock-free reader (list --json --all, show --json; the text views list --epic, list --all, show <epic> against 6 writers that change what they show; thorough: also --epics/--ready) against every writer of the C02 alphabet plus a >4 KiB multi-event append and single appends of 100 KB (larger than the scan buffer), on a small and a 140 KB store (multi-read scans) and on a store under the legacy file name, plus reader against two writers; every interleaving of the reader's steps (path stat, open, tail probe, each read chunk) with the writer's steps up to the preemption bound; oracle: the reader exits 0 and its output equals the same command's output on one of the store versions that existed between its invocation and its exit (snapshots after every scheduler step)")
 }
 
 func c13PartialVisibility(env *core.Env, f *concFix, alpha []c02Cmd) map[string]interface{} {
